@@ -278,6 +278,10 @@ func (v *collator_[V]) compareValues(first ref.Value, second ref.Value) bool {
 			return second.IsNil()
 		case second.IsNil():
 			return false // We know that first isn't nil.
+		case first.Kind() == ref.Interface && second.Kind() == ref.Interface:
+			// Look through the interfaces at the values they hold so that a value
+			// is treated the same way whatever static type it was reached through.
+			return v.compareValues(first.Elem(), second.Elem())
 		case first.MethodByName("AsArray").IsValid():
 			// The value is a sequence.
 			return v.compareSequences(first, second)
@@ -729,6 +733,10 @@ func (v *collator_[V]) rankValues(first ref.Value, second ref.Value) Rank {
 			return LesserRank
 		case second.IsNil():
 			return GreaterRank // We know that first isn't nil.
+		case first.Kind() == ref.Interface && second.Kind() == ref.Interface:
+			// Look through the interfaces at the values they hold so that a value
+			// is treated the same way whatever static type it was reached through.
+			return v.rankValues(first.Elem(), second.Elem())
 		case first.MethodByName("AsArray").IsValid():
 			// The value is a collection.
 			return v.rankSequences(first, second)
